@@ -149,4 +149,14 @@ CHECKS = {
         trusted_base=TB,
         assumptions=["the raw data iterator yields an item for every in-range index (C11)"],
     ),
+    "C19": dict(
+        packs=["c19"], level="other",
+        explanation="R19.1 on every path of Triangle::scanline_intersection the set of rasterised edges is exactly (p1,p2),(p1,p3),(p2,p3) of the (y,x)-sorted vertices (only (p1,p3) in the colinear case), Triangle::contains walks the same canonical edges, sorted_yx is a 3-step compare-exchange network; "
+                    "R19.2 polyline Points::next loads Line(start+translate, end+translate) of the next two vertices, drops one vertex per segment, and re-enters the polyline iterator with the shared joint skipped so that zero-length segments fall through.",
+        claim="Decides the canonical-edge clause (shared edges rasterise identically, result independent of vertex order as far as edge direction is concerned) and the segment-chaining structure of thin polylines; interior coverage, one-pixel tolerance and gap-freedom are geometry and not decided.",
+        note="Necessary conditions; fail closed on unrecognised idioms.",
+        technique="per-path origin trees over MIR (edge-set extraction) compared with the canonical edge table",
+        trusted_base=TB,
+        assumptions=[],
+    ),
 }
